@@ -678,6 +678,37 @@ def correspondence(ctx):
         for b in geometry_oracle(case)[:1]:
             ctx.pred_fail('geometry_oracle', case, b)
 
+    # ---------------- every primitive with an angle parameter at the SPECIAL angles (0, +-90, +-180, +-270, +-360, 450 degrees and
+    # angles within 1e-12 of them), degrees and radians where a flag exists, non-square aspect, against the analytic oracle; plus
+    # the periodicity laws (angle + period gives the same mask)
+    specials = [0.0, 90.0, -90.0, 180.0, -180.0, 270.0, -270.0, 360.0, -360.0, 450.0]
+    k_sp = 0
+    for prim in ('rectangle', 'ellipse', 'spider', 'spider_rad', 'polygon'):
+        for ang in specials:
+            for eps_ in ((0.0, 1e-12, -1e-12) if (ctx.thorough or k_sp % 3 == 0) else (0.0,)):
+                k_sp += 1
+                n = int([31, 32, 48][k_sp % 3])
+                shape = [n, n + 1 - (k_sp % 2) * 2]
+                a_ = ang + eps_
+                if prim == 'rectangle':
+                    case = {'prim': 'rectangle', 'shape': shape, 'width': float(rng.uniform(0.5, 0.9)), 'height': float(rng.uniform(0.1, 0.35)),
+                            'angle': a_, 'period': 180.0}
+                elif prim == 'ellipse':
+                    case = {'prim': 'ellipse', 'shape': shape, 'a': float(rng.uniform(0.6, 0.9)), 'b': float(rng.uniform(0.15, 0.4)),
+                            'angle': a_, 'period': 180.0}
+                elif prim in ('spider', 'spider_rad'):
+                    v = int(rng.integers(1, 7))
+                    case = {'prim': 'spider', 'shape': shape, 'vanes': v, 'width': float(rng.uniform(0.05, 0.25)), 'rotation': a_,
+                            'center': [0.0, 0.0] if k_sp % 2 else [float(q) for q in rng.uniform(-0.3, 0.3, 2)],
+                            'rad': prim == 'spider_rad', 'period': 360.0 / v}
+                else:
+                    sides = int(rng.integers(3, 9))
+                    case = {'prim': 'polygon', 'shape': [shape[0], shape[0]], 'sides': sides, 'radius': float(rng.uniform(0.3, 0.8)),
+                            'rotation': a_, 'center': [float(q) for q in rng.uniform(-0.1, 0.1, 2)], 'period': 360.0 / sides}
+                ctx.case('geometry_oracle', case, tag=f'special-angle/{prim}')
+                for b in geometry_oracle(case)[:1]:
+                    ctx.pred_fail('geometry_oracle', case, b)
+
     # ---------------- polygons (qhull) against the half-plane oracle; monotone; symmetric
     for i in range(ctx.scale(60, 2000)):
         n = int(rng.choice([48, 63, 64]))
@@ -715,6 +746,24 @@ def correspondence(ctx):
 
 
 def geometry_oracle(case):
+    bad = _geometry_oracle(case)
+    if not bad and case.get('period'):
+        # periodicity law: the mask at angle + period equals the mask at angle (away from both boundaries)
+        key = 'rotation' if 'rotation' in case else 'angle'
+        c2 = {k: v for k, v in case.items() if k != 'period'}
+        c2[key] = case[key] + case['period']
+        g1, n1 = _geometry_oracle(case, want_mask=True)
+        g2, n2 = _geometry_oracle(c2, want_mask=True)
+        dec = ~(n1 | n2)
+        if g1.shape != g2.shape or not np.array_equal(g1[dec], g2[dec]):
+            bad = [f'{case["prim"]}: the mask at {key} = {case[key]!r} differs from the mask at {key} + {case["period"]:g} '
+                   f'({int((g1 != g2)[dec].sum()) if g1.shape == g2.shape else "shape"} samples)']
+        else:
+            bad = _geometry_oracle(c2)
+    return bad
+
+
+def _geometry_oracle(case, want_mask=False):
     """spider(center, rotation, rotation_is_rad) / rectangle(any angle, height=None) / offset_circle on the real code against
     formulas that do not use the code's polar helpers; samples within the margin of a boundary are undecided"""
     sg, ge, co, po = _impl()
@@ -746,10 +795,21 @@ def geometry_oracle(case):
         exp = (np.abs(xr) <= case['width']) & (np.abs(yr) <= h)
         near = (np.abs(np.abs(xr) - case['width']) < mg) | (np.abs(np.abs(yr) - h) < mg)
         got = np.asarray(m, dtype=bool)
+    elif case['prim'] == 'ellipse':
+        m = ge.rotated_ellipse(case['a'], case['b'], x, y, major_axis_angle=case['angle'])
+        A = np.radians(-case['angle'])
+        q = (x * np.cos(A) + y * np.sin(A)) ** 2 / case['a'] ** 2 + (x * np.sin(A) - y * np.cos(A)) ** 2 / case['b'] ** 2
+        exp, near, got = q <= 1, np.abs(q - 1) < 1e-7, np.asarray(m) != 0
+    elif case['prim'] == 'polygon':
+        m = ge.regular_polygon(case['sides'], case['radius'], x, y, center=tuple(case['center']), rotation=case['rotation'])
+        exp, near = polygon_oracle(case['sides'], case['radius'], x, y, tuple(case['center']), case['rotation'])
+        got = np.asarray(m, dtype=bool)
     else:
         m = ge.offset_circle(case['radius'], x, y, tuple(case['center']))
         d = np.hypot(x - case['center'][0], y - case['center'][1])
         exp, near, got = d <= case['radius'], np.abs(d - case['radius']) < mg, np.broadcast_to(np.asarray(m, dtype=bool), x.shape)
+    if want_mask:
+        return got, near
     if got.shape != exp.shape:
         return [f'{case["prim"]}: mask shape {got.shape} != grid shape {exp.shape}']
     dec = ~near
@@ -764,7 +824,7 @@ def _floors(ctx):
     h, it = ctx.hist, ctx.items
     nh = it.get('hex_aperture', 0)
     opd = sum(v for k, v in h.items() if k.startswith('compose_opd:hex/'))
-    need = {'hex_mask': 2 * nh, 'keystone': 9, 'geometry_oracle': 30, 'regular_polygon': 30, 'window': 500}
+    need = {'hex_mask': 2 * nh, 'keystone': 9, 'geometry_oracle': 80, 'regular_polygon': 30, 'window': 500}
     low = {k: (it.get(k, 0), v) for k, v in need.items() if it.get(k, 0) < v}
     if opd < 0.25 * nh:
         low['compose_opd:hex'] = (opd, int(0.25 * nh))
@@ -997,6 +1057,8 @@ def search(ctx, hints):
         cands.append(('regular_polygon', {'n': 32, 'sides': sides, 'radius': 0.7, 'rotation': 0.0, 'center': [0.0, 0.0]}))
     cands.append(('geometry_oracle', {'prim': 'spider', 'shape': [32, 33], 'vanes': 3, 'width': 0.2, 'rotation': 25.0, 'center': [0.25, -0.1], 'rad': False}))
     cands.append(('geometry_oracle', {'prim': 'rectangle', 'shape': [32, 33], 'width': 0.6, 'height': 0.3, 'angle': 30.0}))
+    for ang in (90.0, 180.0, -180.0, 270.0, 360.0, -90.0):
+        cands.append(('geometry_oracle', {'prim': 'rectangle', 'shape': [32, 33], 'width': 0.7, 'height': 0.2, 'angle': ang, 'period': 180.0}))
     cands.append(('geometry_oracle', {'prim': 'offset_circle', 'shape': [32, 33], 'radius': 0.4, 'center': [0.25, -0.1]}))
     cands.append(('keystone', {'n': 128, 'diameter': 8.0, 'ccd': 2.4, 'rings': 2, 'spr': [6, 12], 'ring_radius': 0.9, 'gap': 0.05, 'rotation': None}))
     for d in list(hints.get('pred_failures', [])) + list(hints.get('disagreements', [])):
